@@ -94,6 +94,9 @@ pub struct ClientScn {
     pub peer_eof_at: Option<u64>,
     pub preempt_permille: u32,
     pub spurious_permille: u32,
+    /// The dispatch is handed a fresh waker on every poll and only the latest one schedules it.
+    #[serde(default)]
+    pub waker_churn: bool,
     /// 0 none, 1 fmt-to-sink, 2 OpenTelemetry SDK layer
     pub subscriber: u8,
     /// Run for simulated years (deadlines beyond a single timer's span).
@@ -393,6 +396,7 @@ pub fn gen(rng: &mut Rng, focus: Focus) -> ClientScn {
         // a legal executor may poll a task that was not woken; never for the deadline/shutdown
         // focused runs, where strict wake-only scheduling is what exposes lost wake-ups
         spurious_permille: if focus == Focus::General && subscriber == 0 && rng.chance(120) { 100 } else { 0 },
+        waker_churn: rng.chance(80),
         subscriber,
         long,
         jumps: if focus == Focus::Deadlines && !long && rng.chance(250) {
@@ -753,6 +757,10 @@ pub fn run(scn: &ClientScn, tape: Tape, logging: bool) -> RunOutput {
             let sim_d = sim.clone();
             let link_d = link.clone();
             let board_d = board.clone();
+            if scn.waker_churn {
+                sim.count("fault.waker_churn");
+            }
+            let churn = scn.waker_churn;
             let dispatch_id = sim.spawn("dispatch", async move {
                 let mut dispatch = Box::pin(dispatch);
                 let mut seen_sends = 0usize;
@@ -775,6 +783,7 @@ pub fn run(scn: &ClientScn, tape: Tape, logging: bool) -> RunOutput {
                     },
                 });
             });
+            sim.set_waker_churn(dispatch_id, churn);
             // stage board is fed from the log by a watcher hooked into the link events: we do it
             // cheaply by scanning new log entries at each peer/dispatch step via a bg task.
             let replies_pending = Rc::new(Cell::new(0i64));
